@@ -26,6 +26,12 @@ def make_config(rng: random.Random, profile: str, tier: str) -> dict:
     cfg['threads'] = rng.choice([1, 1, 2, 3, 0])
     # buggify: knobs the saved-iteration logic is supposed not to depend on
     cfg['max_report'] = rng.choice([15, 15, 0, 1, 2])
+    if cfg['K'] <= 10 and not cfg.get('zero_peak') and rng.random() < 0.15:
+        # every starting value written as a Python integer (Beta('b', 0, None, None, 0))
+        cfg['init'] = [float(rng.choice([0, 0, 1, -1])) for _ in range(cfg['K'])]
+        cfg['int_init'] = True
+        if cfg.get('kink') and cfg['init'][cfg['kink']['param']] == cfg['kink']['at']:
+            cfg['kink']['at'] += 0.125
     if cfg['K'] <= 10 and not cfg.get('cliff') and not cfg.get('kink') and rng.random() < 0.2:
         # declared bounds that the evaluated points do not respect (direct calls and the scripted optimiser go where they
         # please; so do the algorithms that ignore bounds): the file holds the evaluated point, not a feasible one
@@ -59,9 +65,12 @@ def make_ops(rng: random.Random, cfg: dict, profile: str, tier: str) -> list[dic
             ops.append({'op': 'EVAL_D', 'a': [p[0], p[1], p[2], rng.random() < 0.3,
                                               rng.random() < 0.3, rng.random() < 0.2,
                                               rng.random() < 0.15]})
-        elif r < 0.55:
+        elif r < 0.53:
             p = _points(rng, 1)[0]
             ops.append({'op': 'EVAL', 'a': [p[0], p[1], p[2], rng.random() < 0.3]})
+        elif r < 0.55:
+            p = _points(rng, 1)[0]
+            ops.append({'op': 'FD_HESSIAN', 'a': [p[0], p[1], p[2]]})
         elif r < 0.80:
             scripted = (rng.random() < 0.6 or cfg['K'] > 100 or bool(cfg.get('cliff')) or bool(cfg.get('kink'))
                         or bool(cfg.get('tight_bounds')))
@@ -299,6 +308,11 @@ class Session:
 
     # -- model helpers ---------------------------------------------------------
     def _saving(self, b):
+        # inside an operation that is not an estimation, what counts is what the USER set before calling it (a library
+        # function that quietly switches saving off around its own evaluations does not change what the file must hold)
+        forced = getattr(self, 'saving_as_set_by_user', None)
+        if forced is not None:
+            return forced
         return bool(b.biogeme_parameters.get_value('save_iterations'))
 
     def _point(self, x) -> dict:
@@ -675,6 +689,23 @@ class Session:
                 if not (ctx.fs.fired.get('enospc') or ctx.fs.fired.get('eio')):
                     self.ctx.fail('I15.raise', f'evaluation raised {e!r}')
                 ctx.log(kind, a[0], 'oserror-after-injected-fault')
+        elif kind == 'FD_HESSIAN':
+            # the finite-difference Hessian evaluates the likelihood with derivatives around a point: these evaluations
+            # are evaluations like the others for the saved iterations
+            x = self._resolve(a[0], a[1], a[2])
+            if self.cfg.get('cliff') or self.cfg.get('kink') or self.cfg['K'] > 10:
+                ctx.log(kind, 'skip')
+            else:
+                self.saving_as_set_by_user = self._saving(self.obj)
+                try:
+                    self.obj.likelihood_finite_difference_hessian(x)
+                    ctx.log(kind, a[0])
+                except OSError as e:
+                    if not (ctx.fs.fired.get('enospc') or ctx.fs.fired.get('eio')):
+                        self.ctx.fail('I15.raise', f'finite-difference Hessian raised {e!r}')
+                    ctx.log(kind, a[0], 'oserror-after-injected-fault')
+                finally:
+                    self.saving_as_set_by_user = None
         elif kind == 'EVAL':
             x = self._resolve(a[0], a[1], a[2])
             fname = self._fname(self.obj.modelName)
